@@ -208,3 +208,29 @@ func verifHarness_C01_hist2(param int) {
 	v.drain()
 	verifReach("end")
 }
+
+// Writer histories around MallocAck (quick tier): after a shape, three reservations that do not
+// fit one node (so the pending part spans several nodes), a MallocAck of an arbitrary part
+// (including 0 and everything), three more reservations, then the drain. What MallocAck
+// discarded must never become readable and what was flushed before must stay readable —
+// stale `malloc` marks on the flush node or on discarded nodes only show when later
+// reservations grow into them.
+//
+//verif:bounds the first 8 shapes (single- and two-node buffers with and without unread/pending bytes; the other 14 make the run too slow for the quick tier) + 3 Malloc of 2049..4095 bytes + MallocAck(0..pending) + 3 Malloc of 2049..4095 bytes + drain; loop unrolling 10
+//verif:also C02 C03
+//verif:param 0 7
+//verif:loop 10
+func verifHarness_C01_histack(param int) {
+	v := verifShape(param)
+	verifReach("shape")
+	for i := 0; i < 3; i++ {
+		v.opMallocR(2049, 4095)
+	}
+	v.opMallocAck()
+	for i := 0; i < 3; i++ {
+		v.opMallocR(2049, 4095)
+	}
+	verifReach("writes")
+	v.drain()
+	verifReach("end")
+}
